@@ -103,8 +103,28 @@ pub struct Frame {
 
 pub type Env = Rc<Frame>;
 
+thread_local! {
+    // Every frame made on this thread since the last `release_frames`. A
+    // function value stored in the frame it closes over is an Rc cycle; the
+    // interpreter empties all surviving frames when a run ends so that runs
+    // do not accumulate memory.
+    static FRAMES: RefCell<Vec<std::rc::Weak<Frame>>> = const { RefCell::new(Vec::new()) };
+}
+
 pub fn new_frame(parent: Option<Env>) -> Env {
-    Rc::new(Frame{vars: RefCell::new(BTreeMap::new()), parent})
+    let f = Rc::new(Frame{vars: RefCell::new(BTreeMap::new()), parent});
+    FRAMES.with(|fs| fs.borrow_mut().push(Rc::downgrade(&f)));
+    f
+}
+
+pub fn release_frames() {
+    let frames = FRAMES.with(|fs| std::mem::take(&mut *fs.borrow_mut()));
+    for w in frames {
+        if let Some(f) = w.upgrade() {
+            let taken = std::mem::take(&mut *f.vars.borrow_mut());
+            drop(taken);
+        }
+    }
 }
 
 pub fn lookup(env: &Env, name: &str) -> Option<SV> {
@@ -193,6 +213,8 @@ pub struct CallFrame {
     pub call: Id,
     // Name of the function that was called (None = anonymous).
     pub callee: Option<String>,
+    // The call expression stands inside an interpolation slot.
+    pub from_slot: bool,
 }
 
 #[derive(Clone, Debug)]
@@ -205,6 +227,9 @@ pub struct RErr {
     // The failure was raised inside an interpolation slot (positions then
     // follow the slot rule, not the C18 rules).
     pub in_slot: bool,
+    // ... and the failing node stands in the slot text itself (no call
+    // entered since the innermost slot began).
+    pub in_slot_direct: bool,
 }
 
 pub enum Abort {
